@@ -69,14 +69,21 @@ def run(ck):
     if ck.tier == "thorough" and not ck.replay:
         ck.coqchk(["GM.Props.C03"])
     skipped = ck.stats.get("model_skipped", 0)
-    ck.evaluations = ck.stats.get("model_cases", 0) + ck.stats.get("direct_frames", 0) + ck.stats.get("loopback_runs", 0)
+    ck.evaluations = (ck.stats.get("model_cases", 0) + ck.stats.get("direct_frames", 0) + ck.stats.get("direct_wire", 0) +
+                      ck.stats.get("direct_truncation", 0) + ck.stats.get("direct_limit_first", 0) + ck.stats.get("direct_timer_flush", 0))
     ck.distinct = ck.stats.get("model_distinct", 0)
     ck.rule = ("decoder: streams of 1..6 packets, all 14 types leading, EVERY 2- and 3-way split of streams up to 64 bytes, truncation at every "
                "prefix (one chunk / byte-at-a-time / chunks 1..3, EOF and failing source), packets of 4090..4101, 8191..8193, 12288 bytes "
                "under chunk sizes 1..{1,2,3,7,64,1000,4091,4096,4097,10000}, limits L-1/L/L+1 at every varint boundary, headers announcing "
                "more than the limit, every type nibble, 1..7 continuation bytes, non-minimal varints, valid prefix + noise; encoder and "
                "BaseConn: random scripts of sync/async writes (packets up to 9000 bytes), Flush, timer waits, carrier failure at the k-th write, "
-               "delay switches, receives over fragmented input, Close, deadline failures; thorough: TCP and WebSocket loopback. "
+               "delay switches, receives over fragmented input, Close, deadline failures, a table of packets of 4000..20000 bytes written sync/async "
+               "after pending async writes; real carriers in BOTH tiers: WebSocket loopback (transport.Launch ws://127.0.0.1:0 + raw gorilla client: "
+               "one byte per message, packets spanning messages, several packets per message, 9 KB and 20 KB messages, messages written as ~32-byte "
+               "frames, a text message, close frame vs dropped connection) and TCP loopback, thorough adds 240 random loopback runs. Property clauses "
+               "evaluated on the implementation alone (direct lines): packets received == packets sent, truncation => ErrUnexpectedEOF after the "
+               "complete packets, limit refusal within 5 bytes, wire == concatenation of accepted encodings (prefix of it under failures), "
+               "everything on the wire once the flush delay has elapsed, same outcome for every chunking of one stream. "
                "distinct_nontrivial = distinct (kind, terminal error, limit on/off, packets, chunk-size class, leading type) resp. "
                "(operation sequence, result sequence) classes on the model side; %d cases skipped because the flush timer fired outside a wait window"
                % skipped)
